@@ -34,6 +34,8 @@ type script struct {
 	// lullC / lullT: the sender goes quiet for this long (longer than the proxy's idle and
 	// read-header timeouts) half way through its stream - or before its half-close if it sends nothing
 	lullC, lullT time.Duration
+	// spelling of the CONNECT request: protocol version and connection options a client may send
+	proto, connOpt string
 }
 
 type sideResult struct {
@@ -357,6 +359,8 @@ func genScript(r *lib.RNG, key, route string, thorough bool) *script {
 	if s.nT > 200000 && s.segT == 7 {
 		s.segT = 1500
 	}
+	s.proto = lib.Pick(r, []string{"HTTP/1.1", "HTTP/1.1", "HTTP/1.1", "HTTP/1.0"})
+	s.connOpt = lib.Pick(r, []string{"", "", "Connection: close\r\n", "Connection: keep-alive\r\n", "Proxy-Connection: Keep-Alive\r\n", "Connection: close, x-whatever\r\nX-Whatever: 1\r\n"})
 	if r.Chance(1, 6) {
 		s.lullC = 1300 * time.Millisecond
 	}
@@ -367,7 +371,7 @@ func genScript(r *lib.RNG, key, route string, thorough bool) *script {
 }
 
 func (s *script) shape() string {
-	return fmt.Sprintf("%s|%s|c=%s+%d|t=%s+%d|ec=%v|et=%v|lull=%v/%v", s.route, s.order, lib.SizeClass(s.nC), s.mC, lib.SizeClass(s.nT), s.mT, s.earlyC > 0, s.earlyT > 0, s.lullC > 0, s.lullT > 0)
+	return fmt.Sprintf("%s|%s|%s|%s|c=%s+%d|t=%s+%d|ec=%v|et=%v|lull=%v/%v", s.route, s.proto, strings.SplitN(strings.TrimSpace(s.connOpt), "\r", 2)[0], s.order, lib.SizeClass(s.nC), s.mC, lib.SizeClass(s.nT), s.mT, s.earlyC > 0, s.earlyT > 0, s.lullC > 0, s.lullT > 0)
 }
 
 // runTunnel executes the script through route rt (or, for the control path, through a
@@ -407,7 +411,7 @@ func runTunnel(run *lib.Run, hb *lib.Heartbeat, rt *route, s *script, r *lib.RNG
 			method = "GET"
 			head = fmt.Sprintf("GET /up/%s HTTP/1.1\r\nHost: upgrade-origin.test\r\nConnection: Upgrade\r\nUpgrade: vrf-proto\r\n\r\n", s.key)
 		} else {
-			head = fmt.Sprintf("CONNECT %s.tunnel.test:443 HTTP/1.1\r\nHost: %s.tunnel.test:443\r\n\r\n", s.key, s.key)
+			head = fmt.Sprintf("CONNECT %s.tunnel.test:443 %s\r\nHost: %s.tunnel.test:443\r\n%s\r\n", s.key, s.proto, s.key, s.connOpt)
 		}
 		// early client data travels in the same segment as the head
 		st.C.Write(append([]byte(head), early(s.earlyC, s.keyC)...))
@@ -442,7 +446,7 @@ func runTunnel(run *lib.Run, hb *lib.Heartbeat, rt *route, s *script, r *lib.RNG
 }
 
 func main() {
-	run := lib.Start("C03", "tunnel scripts (payload sizes 0..1 MiB (4 MiB thorough) per direction as self-describing offset streams, PRNG write segmentation 7 B..200 KB with pauses, in a third of the scripts a 1.3 s quiet period of one side (proxy idle-timeout 0.8 s, read-header-timeout 0.4 s), 0..8 KiB of client data coalesced with the CONNECT/Upgrade head, 0..4000 B of target data sent with the 200/101 reply, half-close order client-first / target-first / simultaneous, post-EOF data from the second closer) through routes direct, upstream http, upstream https, socks5, custom connect function and HTTP/1.1 Upgrade; far endpoints verify every byte by offset, the EOF position and closure; each script is first run on a control path without the proxy; distinct = (route, order, size classes, early-data presence) signatures")
+	run := lib.Start("C03", "tunnel scripts (payload sizes 0..1 MiB (4 MiB thorough) per direction as self-describing offset streams, PRNG write segmentation 7 B..200 KB with pauses, in a third of the scripts a 1.3 s quiet period of one side (proxy idle-timeout 0.8 s, read-header-timeout 0.4 s), 0..8 KiB of client data coalesced with the CONNECT/Upgrade head (CONNECT as HTTP/1.1 or 1.0, with Connection: close / keep-alive / Proxy-Connection options), 0..4000 B of target data sent with the 200/101 reply, half-close order client-first / target-first / simultaneous, post-EOF data from the second closer) through routes direct, upstream http, upstream https, socks5, custom connect function and HTTP/1.1 Upgrade; far endpoints verify every byte by offset, the EOF position and closure; each script is first run on a control path without the proxy; distinct = (route, order, size classes, early-data presence) signatures")
 	hb := lib.StartHeartbeat()
 	root := run.RNG()
 	ca := lib.NewCA("verif CA")
@@ -486,7 +490,7 @@ func main() {
 
 func (s *script) describe() map[string]any {
 	return map[string]any{"route": s.route, "order": s.order, "client_bytes": s.nC, "client_post_eof_bytes": s.mC, "target_bytes": s.nT, "target_post_eof_bytes": s.mT,
-		"client_early_bytes": s.earlyC, "target_early_bytes": s.earlyT, "client_max_write": s.segC, "target_max_write": s.segT, "client_quiet_ms": s.lullC.Milliseconds(), "target_quiet_ms": s.lullT.Milliseconds()}
+		"client_early_bytes": s.earlyC, "target_early_bytes": s.earlyT, "client_max_write": s.segC, "target_max_write": s.segT, "client_quiet_ms": s.lullC.Milliseconds(), "target_quiet_ms": s.lullT.Milliseconds(), "connect_proto": s.proto, "connect_connection_option": strings.TrimSpace(s.connOpt)}
 }
 
 func oneTunnel(run *lib.Run, hb *lib.Heartbeat, rt *route, s *script, r *lib.RNG, idx int) {
